@@ -50,7 +50,8 @@ func (ctx Ctx) selectorExprType(e *ast.SelectorExpr) coq.Expr {
 		return coq.TypeIdent("disk.blockT")
 	}
 	if isIdent(e.X, "sync") &&
-		(isIdent(e.Sel, "Cond") || isIdent(e.Sel, "Mutex")) {
+		(isIdent(e.Sel, "Cond") || isIdent(e.Sel, "Mutex") ||
+			isIdent(e.Sel, "WaitGroup") || isIdent(e.Sel, "RWMutex")) {
 		ctx.unsupported(e, "%s without pointer indirection", ctx.printGo(e))
 	}
 	return ctx.coqTypeOfType(e, ctx.typeOf(e))
@@ -98,7 +99,8 @@ func (ctx Ctx) coqTypeOfType(n ast.Node, t types.Type) coq.Type {
 			ctx.unsupported(n, "unexpected built-in type %v", t.Obj())
 		}
 		if t.Obj().Pkg().Name() == "sync" &&
-			(t.Obj().Name() == "Mutex" || t.Obj().Name() == "Cond") {
+			(t.Obj().Name() == "Mutex" || t.Obj().Name() == "Cond" ||
+				t.Obj().Name() == "WaitGroup" || t.Obj().Name() == "RWMutex") {
 			// same restriction as selectorExprType, for types that are
 			// inferred rather than written (e.g. var mu sync.Mutex)
 			ctx.unsupported(n, "sync.%s without pointer indirection", t.Obj().Name())
